@@ -23,6 +23,13 @@
    dequeued (`start`) only when no other command of its queue is between dequeue
    and rendezvous; a callback whose listener reports it later than the next
    command's first send is taken at that send (receiving and recording are two steps).
+   The servent mutex: the replay runs on the queue layer, which the lock layer
+   (Model/CmdLock: leave windows, the mutex) refines (`C12_lock_refines`); a reply issued
+   from inside a send call that then fails is replayed as `sendFail` followed by an inert
+   `deliver` — for the caller the same as the lock layer's `expire; deliver; unregister`
+   (`C12_window_reply_leaks_not_fails`). `(stuck c L S)` = two goroutine dumps prove
+   that command c is wedged behind the servent mutex: never a behaviour of the model
+   (`C12_lock_free_at_rest`, `C12_never_stuck`, `C12_can_always_complete_in_windows`).
    Spec.C12 is evaluated on the same observation, independently of the replay. -/
 import ControlModel.Basic
 import ControlModel.Model.CmdQueue
@@ -81,6 +88,10 @@ def parseEvent : SExp → Option (Ev × List Nat)
   | .list [.atom "B", c, .atom "held"] => do pure (.probe (← c.nat?) .held, [])
   | .list [.atom "B", c, .atom "idle"] => do pure (.probe (← c.nat?) .idle, [])
   | .list [.atom "B", c, .atom "passed"] => do pure (.probe (← c.nat?) .passed, [])
+  | .list [.atom "stuck", c, l, s] => do
+      let _ ← l.nat?
+      let _ ← s.nat?
+      pure (.stuck (← c.nat?), [])
   | _ => none
 
 def parseFinal : SExp → Option (Nat × Result)
@@ -292,6 +303,8 @@ def monitor (cmds : List Cmd) (qs : List Nat) (all : List (Ev × List Nat)) (fin
       if m.s.listening c then throw s!"second listener for command {c}"
       m := { m with s := qstep cmds (queueOf qs) m.s (.listen c) }
     | .probe c w => m := { m with s := ← onProbe cmds qs evs m.s c w }
+    | .stuck c =>
+      throw s!"command {c} is wedged for ever behind the servent mutex: goroutines of its commit are parked in s.mu.Lock() while every other goroutine inside the Servent is parked too (ProcessResponse in its hand-over on call.Done), none is in RunCommand's select, none runs — the mutex is held by a goroutine that can never release it. In the model the mutex is released BEFORE the hand-over, is free whenever anybody is blocked, a reply that meets a caller on its way out is parked holding nothing, and every dequeued command can always complete"
   let s := m.s
   for c in List.range cmds.length do
     if s.taken c = false then throw s!"command {c} never completed: no answer arrived on its callback channel"
